@@ -36,6 +36,9 @@ func v2Decode(dec byte, s string) (o v2obj, err error) {
 }
 
 func v2EventBody(v *v2Vec, temporal, env bool, lvl string, f float64, sev string) string {
+	if flagPid == "C06" {
+		return gridBody("v2", lvl, f, sev, lvl == "E" && env && v2NegEq(v))
+	}
 	t, ex, s := obsScore(f)
 	ts, es := "[]", "[]"
 	if temporal {
